@@ -294,6 +294,8 @@ def undo_extractions(modules: Dict[str, ast.Module], known_quals: set, log: List
                     continue
                 if any(c is x for c in calls for x in ast.walk(fn)):      # recursive
                     continue
+                for call in calls:
+                    _unfold_comprehension(tree, call)
                 staged = []
                 ok = True
                 for call in calls:
@@ -423,6 +425,46 @@ def undo_find_first_helpers(modules: Dict[str, ast.Module], known_quals: set, lo
             lst[i:] = new_stmts if tail_used else new_stmts + lst[i + 2:]
             tree.body.remove(fn)
             log.append(f"{mname}.{fn.name} (first-match search helper) put back as a loop around its single use")
+
+
+def _unfold_comprehension(tree, call) -> bool:
+    """`sep.join(helper(x) for x in S)` (or a list comprehension / list(...) of it) whose element IS the helper call, as the loop it abbreviates:
+           _acc = []
+           for x in S: _acc.append(helper(x))
+           ... sep.join(_acc) ...
+    so that the helper can be put back into the loop body.  Only for one generator without conditions, in a simple statement."""
+    for holder in ast.walk(tree):
+        for fld in ("body", "orelse", "finalbody"):
+            lst = getattr(holder, fld, None)
+            if not isinstance(lst, list):
+                continue
+            for i, st in enumerate(lst):
+                if not isinstance(st, (ast.Expr, ast.Assign, ast.Return)):
+                    continue
+                for comp in ast.walk(st):
+                    if isinstance(comp, (ast.GeneratorExp, ast.ListComp)) and comp.elt is call and len(comp.generators) == 1 and not comp.generators[0].ifs \
+                            and not comp.generators[0].is_async:
+                        # the comprehension must be consumed whole and in order: argument of join / list / tuple, or the assigned value itself
+                        parent = next((p for p in ast.walk(st) for f2, v in ast.iter_fields(p)
+                                       if v is comp or (isinstance(v, list) and any(x is comp for x in v))), None)
+                        ok = isinstance(parent, ast.Call) and len(parent.args) == 1 and parent.args[0] is comp and not parent.keywords and (
+                            (isinstance(parent.func, ast.Attribute) and parent.func.attr == "join") or
+                            (isinstance(parent.func, ast.Name) and parent.func.id in ("list", "tuple")))
+                        ok = ok or (isinstance(comp, ast.ListComp) and isinstance(st, (ast.Assign, ast.Return)) and st.value is comp)
+                        if not ok:
+                            return False
+                        acc = f"_acc_{getattr(call.func, 'id', getattr(call.func, 'attr', 'x')).strip('_')}"
+                        g = comp.generators[0]
+                        init = ast.Assign(targets=[ast.Name(id=acc, ctx=ast.Store())], value=ast.List(elts=[], ctx=ast.Load()))
+                        app = ast.Expr(value=ast.Call(func=ast.Attribute(value=ast.Name(id=acc, ctx=ast.Load()), attr="append", ctx=ast.Load()), args=[call], keywords=[]))
+                        loop = ast.For(target=g.target, iter=g.iter, body=[app], orelse=[], type_comment=None)
+                        _replace_node(st, comp, ast.Name(id=acc, ctx=ast.Load()))
+                        for n_ in (init, loop):
+                            ast.copy_location(n_, st)
+                            ast.fix_missing_locations(n_)
+                        lst[i:i + 1] = [init, loop, st]
+                        return True
+    return False
 
 
 def _find_site(tree, call):
